@@ -32,26 +32,28 @@ TRUST_COMMON = [
 # not_decided (clauses of the property out of reach of this family), technique.
 _ALL = {
     "C01": dict(
-        want=["T1", "T3", "D1", "D2", "D6", "D6b", "M1", "M2", "P2", "P3", "K1@reduce", "K4@reduce", "K2", "M6", "M8", "M5"],
+        want=["T1", "T3", "D1", "D2", "D6", "D6b", "M1", "M2", "P2", "P3", "K1@reduce", "K4@reduce", "K2", "M6", "M8", "M5", "P26"],
         explanation=("Static analysis of /repo's source. Decides: every row reducer (ScalarFuncs) normalised to a decision "
                      "table over NULL/NZ/ORD atoms equals the hand-written specification of the operation it is dispatched as "
                      "(size, count, sum, mean=sum/count, min, max, first, last); op->kernel->reducer dispatch by constant "
                      "propagation; mean is computed from sums and counts after margins; the observed-label filter is fed by "
                      "key counts with one container kind; null writer/reader tables agree; null-code guard and row counter "
                      "in the reduction loop."
-                     ' Also: merges of partial results receive and skip by counts (M1, M2, D2); pointer lookups and slice-start normalisation on chunked keys (M5, M6); a key already cut by a slice is never paired with the raw mask (M8); the null code survives every re-mapping (K2); the per-group count array of the reduction loop is 64 bit (K4).'),
+                     ' Also: merges of partial results receive and skip by counts (M1, M2, D2); pointer lookups and slice-start normalisation on chunked keys (M5, M6); a key already cut by a slice is never paired with the raw mask (M8); the null code survives every re-mapping (K2); the per-group count array of the reduction loop is 64 bit (K4).'
+                     ' Means by true division (P26).'),
         not_decided=["that _group_by_reduce visits every selected row exactly once beyond K1/K6 (loop-bound arithmetic)",
                      "label-set equality with pandas; polars/arrow conversions (third party)"],
         technique="GCNF decision tables vs spec tables; constant-propagated dispatch; fact-walker dominance; path rules",
     ),
     "C02": dict(
-        want=["K1@factorize", "K2", "K6@factorize", "F1", "P7", "K4b", "P7b", "F1b", "H2"],
+        want=["K1@factorize", "K2", "K6@factorize", "F1", "P7", "K4b", "P7b", "F1b", "H2", "P25", "S3b", "S2"],
         explanation=("Decides the structural part of faithful factorization: the null code -1 is produced for a null in ANY key "
                      "position and preserved by every code re-mapping (K2); every factorization route tests the key for null "
                      "before an ordering comparison decides its code or delegates to a library call documented to emit the "
                      "sentinel (F1); pointer tables are built against the final label index (P7); the counting sort and code "
                      "combination guard the null code (K1) and advance their row counter unconditionally (K6)."
-                     ' Also: identifier arrays never take their width from an input and counter tables handed to kernels are wide (K4b); the chunk-wise label union keeps first-appearance order and every pointer table is a get_indexer lookup (P7b); RangeIndex offsets are divided by the step unless it is exactly 1 (F1b); the counting sort behind `groups` uses prefix-sum group starts and writes every accepted row once at the position of its group (H2).'),
+                     ' Also: identifier arrays never take their width from an input and counter tables handed to kernels are wide (K4b); the chunk-wise label union keeps first-appearance order and every pointer table is a get_indexer lookup (P7b); RangeIndex offsets are divided by the step unless it is exactly 1 (F1b); the counting sort behind `groups` uses prefix-sum group starts and writes every accepted row once at the position of its group (H2).'
+                     ' The group-sorted layout (groups, apply, ema) is cut with counts permuted into label order (P25); a copy of a grouping takes every attribute, and codes are read as global codes only when they are (S3b, S2).'),
         not_decided=["that equal keys get equal codes and unequal keys different codes (delegated to pd.factorize / arrow "
                      "dictionary_encode / mixed-radix arithmetic incl. int64 overflow of the cartesian product)",
                      "ascending positions inside groups (counting-sort arithmetic)"],
@@ -72,14 +74,15 @@ _ALL = {
         technique="call-site binding rules, def-use on the completion loop, typestate of the key representation",
     ),
     "C04": dict(
-        want=["T1", "T2", "D2", "D6", "D8", "D9", "M1", "M2", "M4", "K1@reduce", "K4@reduce"],
+        want=["T1", "T2", "D2", "D6", "D8", "D9", "M1", "M2", "M4", "K1@reduce", "K4@reduce", "P26"],
         explanation=("Decides the monoid contract of the block-wise kernels: reducer decision tables equal their specs (T1); "
                      "algebraic laws on the tables — empty partial is the identity, nulls are skipped, count +1 exactly on "
                      "accepted values, selection reducers return one of their operands, merge classes are closed (T2); both "
                      "merge sites fold to MERGE[class] (D2), count arrays are merged for counting ops (D6); mask-kind dispatch "
                      "shape (D8); merges see and update the accumulated count (M1, M2); one splitter (M4); negative codes "
                      "are skipped (K1)."
-                     ' Also: the per-group count array of the reduction loop is 64 bit (K4).'),
+                     ' Also: the per-group count array of the reduction loop is 64 bit (K4).'
+                     ' Kernel-level means divide by the counts with true division: a zero count gives a null (P26).'),
         not_decided=["exhaustive small-scope enumeration (a dynamic technique)",
                      "behaviour of out-of-range positive positions beyond the presence of the bounds check"],
         technique="GCNF decision tables + algebraic laws on tables; dispatch folding; call-site rules",
@@ -107,11 +110,12 @@ _ALL = {
         technique="fact-walker dominance over inferred code variables; null-preservation idiom table",
     ),
     "C07": dict(
-        want=["P5", "P6", "S2", "P11", "P2", "D2", "D6b", "K2", "P12", "P5b"],
+        want=["P5", "P6", "S2", "P11", "P2", "D2", "D6b", "K2", "P12", "P5b", "P25"],
         explanation=("Decides that transform indexes code-ordered arrays only: the base of every subscript indexed by the row "
                      "codes carries no sort-permutation taint (P5), has a null slot (P6), is indexed after unification (S2), "
                      "and the transform path restores the input's index/container (P11)."
-                     ' Also: merge classes (D2), null-code preservation (K2), polars receives datetime results as integers only without null sentinel (P12), label-sorted arrays are filtered only by selectors in label-sorted order (P5b).'),
+                     ' Also: merge classes (D2), null-code preservation (K2), polars receives datetime results as integers only without null sentinel (P12), label-sorted arrays are filtered only by selectors in label-sorted order (P5b).'
+                     ' Group-sorted layout sized by label-ordered counts (P25).'),
         not_decided=["value equality of broadcast and reduction beyond the index-space argument (the reduction itself is C01)"],
         technique="taint analysis of index spaces; typestate; path rule",
     ),
@@ -140,14 +144,15 @@ _ALL = {
         technique="fact walker, path enumeration, dtype-provenance classification, dispatch folding",
     ),
     "C10": dict(
-        want=["K1@ema", "E1", "E2", "E3", "A2", "K3@ema", "M7", "E4", "E5", "E6", "E7", "P24", "K7"],
+        want=["K1@ema", "E1", "E2", "E3", "A2", "K3@ema", "M7", "E4", "E5", "E6", "E7", "P24", "K7", "P25"],
         explanation=("Decides the periphery of the EMA, not the closed form: null-key guard in the grouped kernels (K1); "
                      "invalid rows read the group's own carried value (E2); the halflife->alpha conversion is the same "
                      "function of the raw parameter in both entry points (E1); the alignment decorator names real "
                      "parameters (A2); masked rows (K3, with the documented exemption and known finding)."
                      ' Also: the time-weighted kernel advances the clock exactly where it decays (E3, both directions); the alpha kernels multiply the running state by beta exactly once on every row path (E4); row-aligned inputs are re-ordered by one indexer (M7); on every valid-row path of the four adjusted kernels out = (x + R)/(1 + W) followed by R += x and W += 1 (E5).'
                      ' ema / ema_grouped dispatch only to the kernels of their own family (E6); the per-group clock of the timed kernel is an integer array (E7); integer views of timestamps are taken only after an explicit unit normalisation and zones are never dropped with tz_localize(None) (P24).'
-                     ' The grouped EMA kernels receive boolean masks only (K7).'),
+                     ' The grouped EMA kernels receive boolean masks only (K7).'
+                     ' ema(index_by_groups=True) repeats the group codes with counts in label order (P25).'),
         not_decided=["the closed form, alpha/beta arithmetic, time decay, equality of grouped and ungrouped series"],
         technique="fact walker; expression normal-form comparison; decorator-name rule",
     ),
@@ -203,11 +208,12 @@ _ALL = {
         technique="allocation-width rule; fact walker; must-validate",
     ),
     "C16": dict(
-        want=["A3c", "D7", "P5b", "P20", "D7b", "D7c", "P22"],
+        want=["A3c", "D7", "P5b", "P20", "D7b", "D7c", "P22", "P25"],
         explanation=("Decides composition consistency: composites forward every semantic parameter to the primitives they are "
                      "defined by (A3c); var uses the three primitives with one shared keyword set and std delegates to var (D7)."
                      ' Also: label-sorted arrays are filtered only by selectors in the same order (P5b); the composites apply no null-suppressing function (P20); the value returned by var is (sum_squares - sum^2/count)/(count - ddof) in canonical arithmetic form and std is its square root (D7b).'
-                     ' The sums are squared in float64 (D7c); the non-reduce probe doubles a one-element input by tiling (P22).'),
+                     ' The sums are squared in float64 (D7c); the non-reduce probe doubles a one-element input by tiling (P22).'
+                     ' apply / median / quantile split the group-sorted rows with counts in label order (P25).'),
         not_decided=["variance accuracy, quantile equality with NumPy, apply semantics, densities summing to 100"],
         technique="parameter-forwarding over resolved call sites",
     ),
